@@ -16,7 +16,7 @@ pub fn prop() -> Prop {
         check,
         quick_runs: 24_000,
         both_profiles: true,
-        rule: "a run = one hostile line stream (1-3 addresses; edge-valued frames of every DF, wrong-length frames, junk, corrupted frames) fed through a file or TCP script with random chunking under a random option vector; every 12 000th run index is a single-format stream of 215 000-335 000 frames with -c; non-trivial = at least one well-formed frame was applied and at least one hostile line was processed; distinct = distinct abstract table states (populated-parameter bitmap, CA class, CPR slots, age buckets, option class, last event kind)",
+        rule: "a run = one hostile line stream (1-3 addresses; edge-valued frames of every DF, wrong-length frames, junk, corrupted frames) fed through a file or TCP script with random chunking under a random option vector (observer strings incl. nan / inf / 1e400 / subnormal, which the program's parser accepts); every 12 000th run index is a single-format stream of 215 000-335 000 frames with -c; non-trivial = at least one well-formed frame was applied and at least one hostile line was processed; distinct = distinct abstract table states (populated-parameter bitmap, CA class, CPR slots, age buckets, option class, last event kind)",
         level_text: "seeded exploration of hostile line histories x option vectors x feed faults in two build profiles; oracle: no panic / no wedge / file source returns Ok at EOF / sentinel frame after hostile input is applied",
     }
 }
